@@ -364,6 +364,9 @@ def c18() -> int:
     fsx(c, FIFO + ({},), ("hivemc.bundles", "c18", {}), K=4 if quick else 6, H=9 if quick else 12, needs=needs)
     fsx(c, FIFO + ({"small": True},), ("hivemc.bundles", "c18", {}), K=3 if quick else 5, H=9 if quick else 12, needs=needs[:1])
     fsx(c, FIFO + ({"plugs": ["DCFC", "LEVEL_2"]},), ("hivemc.bundles", "c18", {}), K=3 if quick else 5, H=8 if quick else 11, needs=needs[:1])
+    # the queue spans midnight (run starts three minutes before the end of a day); fleets in use with a public station
+    fsx(c, FIFO + ({"midnight": True},), ("hivemc.bundles", "c18", {}), K=4 if quick else 5, H=9 if quick else 11, needs=needs[:1] + ["c18:queue_spans_midnight"])
+    fsx(c, FIFO + ({"fleets": True},), ("hivemc.bundles", "c18", {}), K=4 if quick else 5, H=9 if quick else 11, needs=needs[:1])
     # a vehicle that is still full when it arrives at the busy station; an initial layout at time 0 with a vehicle queued since t = 0
     fsx(c, FIFO + ({"full_v1": True},), ("hivemc.bundles", "c18", {}), K=4 if quick else 5, H=9 if quick else 11, needs=needs[:1])
     fsx(c, FIFO + ({"t0": True},), ("hivemc.bundles", "c18", {}), K=3 if quick else 5, H=9 if quick else 11,
